@@ -558,8 +558,8 @@ def gen_sampling(rng, n, tier):
         L.append("g1_hash %s" % h); L.append("id_hash %s" % h)
     L.append("g2_hash %s" % ("ff" * 96)); L.append("g2_hash %s" % ("00" * 96))
     for _ in range(max(2, n // 4)):
-        L.append("g1_rand %s" % bytes(rng.getrandbits(8) for _ in range(49 * 8)).hex())
-        L.append("g2_rand %s" % bytes(rng.getrandbits(8) for _ in range(97 * 8)).hex())
+        L.append("g1_rand %s" % bytes(rng.getrandbits(8) for _ in range(49 * 128)).hex())
+        L.append("g2_rand %s" % bytes(rng.getrandbits(8) for _ in range(97 * 128)).hex())
     # a draw whose x-coordinate belongs to a curve point of order dividing the cofactor (T = r*P): cofactor clearing gives the
     # identity and the sampler must retry with the rest of the stream
     import pyref as _pr
@@ -567,14 +567,14 @@ def gen_sampling(rng, n, tier):
         T = None
         while T is None: T = E1.mul(R, E1.rand_curve_point(rng))
         st = _pr.montq(T[0]).to_bytes(48, "little") + bytes([sign])
-        L.append("g1_rand %s%s" % (st.hex(), bytes(rng.getrandbits(8) for _ in range(49 * 8)).hex()))
+        L.append("g1_rand %s%s" % (st.hex(), bytes(rng.getrandbits(8) for _ in range(49 * 128)).hex()))
         T = None
         while T is None: T = E2.mul(R, E2.rand_curve_point(rng))
         st = _pr.montq(T[0][0]).to_bytes(48, "little") + _pr.montq(T[0][1]).to_bytes(48, "little") + bytes([sign])
-        L.append("g2_rand %s%s" % (st.hex(), bytes(rng.getrandbits(8) for _ in range(97 * 8)).hex()))
+        L.append("g2_rand %s%s" % (st.hex(), bytes(rng.getrandbits(8) for _ in range(97 * 128)).hex()))
     # forced rejection of the field element (>= q) before an acceptable draw
     bad = (rng.randrange(Q, 1 << 381)).to_bytes(48, "little").hex()
-    L.append("g1_rand %s%s" % (bad, bytes(rng.getrandbits(8) for _ in range(49 * 8)).hex()))
+    L.append("g1_rand %s%s" % (bad, bytes(rng.getrandbits(8) for _ in range(49 * 128)).hex()))
     return L
 
 def gen_capi(rng, n, tier):
@@ -602,7 +602,7 @@ def gen_capi(rng, n, tier):
             L.append("capi multiply_affine %s %s %s" % (g, E.aff(rng.choice(sub), rng), hx(k, 256)))
         for _ in range(max(2, n // 3)):
             L.append("capi from_hash %s %s" % (g, bytes(rng.getrandbits(8) for _ in range(hs)).hex()))
-            L.append("capi random %s %s" % (g, bytes(rng.getrandbits(8) for _ in range((hs + 1) * 8)).hex()))
+            L.append("capi random %s %s" % (g, bytes(rng.getrandbits(8) for _ in range((hs + 1) * 128)).hex()))
             for comp in ("0", "1"):
                 for chk in ("0", "1"):
                     nb = hs * (1 if comp == "1" else 2)
@@ -903,7 +903,7 @@ def expand_unmarshal(lines, outs, rng, tier):
 
 def gen_lqibe(rng, n, tier):
     S = WkScenario(rng); L = S.L
-    L.append("lq_setup %s" % S.stream(49 * 60)); nP = 1; nM = 1
+    L.append("lq_setup %s" % S.stream(49 * 400)); nP = 1; nM = 1
     msks = [0]
     for sval in (R, R + 5, (1 << 256) - 1, 0, 1, 1 << 255, (1 << 255) + 5, 2 * R + 3, R - 1):
         L.append("lq_msk %s" % sval.to_bytes(32, "little").hex()); msks.append(nM); nM += 1
